@@ -19,7 +19,7 @@ namespace vd
     };
     struct Out
     {
-        uint8_t bytes[1024];
+        uint8_t bytes[8192];
         int len;
     };
     using Fn = void (*)(const Args&, Out&);
